@@ -224,3 +224,43 @@ def nasty_atom() -> Any:
         st.binary(max_size=12).map(
             lambda b: b.replace(b'\n', b'').replace(b'\r', b'')),
         st.text('abcINBOX019/.&-', max_size=10).map(str.encode))
+
+
+# -- corpus and dictionary for the coverage-guided engine (harness/fuzz.py) ----------
+
+FUZZ_MESSAGES = [
+    b'Subject: x\r\nFrom: a@b, "c d" <e@f>\r\nTo: g: h@i, j@k;\r\n'
+    b'Date: Mon, 1 Jan 2001 00:00:00 +0000\r\n\r\nbody\r\n',
+    b'Content-Type: multipart/mixed; boundary=b\r\n\r\npreamble\r\n--b\r\n'
+    b'Content-Type: text/plain; charset=utf-8\r\n'
+    b'Content-Transfer-Encoding: base64\r\n\r\naGk=\r\n--b\r\n'
+    b'Content-Type: message/rfc822\r\n\r\nSubject: in\r\n\r\nx\r\n--b--\r\n'
+    b'epilogue\r\n',
+    b'Content-Type: message/rfc822\r\n\r\nContent-Type: text/html\r\n'
+    b'Content-Disposition: attachment; filename="a"\r\n'
+    b'Content-Language: en, de\r\nContent-Location: http://x/\r\n'
+    b'Content-Id: <i@d>\r\nContent-Description: d\r\n\r\n<p>\r\n',
+    b'Subject: =?utf-8?b?w6k=?= =?iso-8859-1?q?=E9?=\r\n'
+    b'References: <a@b> <c@d>\r\nIn-Reply-To: <a@b>\r\nMessage-Id: <e@f>\r\n'
+    b'Content-Transfer-Encoding: quoted-printable\r\n\r\n=C3=A9=\r\n',
+    b'Content-Type: multipart/alternative;\r\n boundary="x y"\r\n\r\n'
+    b'--x y\r\n\r\nplain\r\n--x y\r\nContent-Type: multipart/related; '
+    b'boundary=in\r\n\r\n--in\r\nContent-Type: image/png\r\n'
+    b'Content-Transfer-Encoding: binary\r\n\r\n\x89PNG\x00\r\n--in--\r\n'
+    b'--x y--\r\n',
+    b'From: a\nTo: b\n\nlf only\n', b'\r\nno headers\r\n', b'A: b',
+    b'Received: x\r\n\tfolded\r\n continued\r\nSender: s@t\r\n'
+    b'Reply-To: r@s\r\nCc: c@d\r\nBcc: b@c\r\n\r\n.\r\n',
+]
+
+FUZZ_MIME_DICT = [
+    b'Content-Type: ', b'multipart/mixed; boundary=', b'message/rfc822',
+    b'text/plain', b'Content-Transfer-Encoding: ', b'base64',
+    b'quoted-printable', b'binary', b'8bit', b'Content-Disposition: ',
+    b'attachment; filename=', b'=?utf-8?q?', b'=?utf-8?b?', b'?=',
+    b'Subject: ', b'From: ', b'To: ', b'Date: ', b'Sender: ', b'Reply-To: ',
+    b'In-Reply-To: ', b'References: ', b'Message-Id: ', b'--b\r\n',
+    b'--b--\r\n', b'\r\n\r\n', b'\r\n', b'\n', b'charset=', b'; ', b'="',
+    b'*0*=', b"utf-8''", b'<a@b>', b'"', b':;', b'\r\n ', b're: ',
+    b'Content-Language: ', b'Content-Location: ', b'Content-Id: ',
+    b'Mon, 1 Jan 2001 00:00:00 +0000', b'{3+}', b'\xfe\xfe']
